@@ -140,7 +140,7 @@ def run(ctx):
         vr = [a for a in gated if ("name in ['valid', 'ready']", True) in a.pyguards]
         ctx.ob("L2", rel, acls, "S->M valid/ready wiring:present", len(vr) == 1, f"{len(vr)} gated drivers", 0)
         for a in vr:
-            ats = B.atoms(B.guard_formula(a.guards))
+            ats = B.atoms(a.eff())
             r = _rr_of_channel(ats[0].split(".grant == ")[0]) if len(ats) == 1 and ".grant == i" in ats[0] else None
             ok = r is not None and r[0] == {"aw", "w", "b"} and r[1] == "self.rr_write" and r[2] == "self.rr_read" and \
                 a.v == "getattr(getattr(target, channel), name)"
@@ -169,7 +169,7 @@ def run(ctx):
         ok = len(reg) == 1
         if ok:
             ch = reg[0].t[len("slave_sel_reg["):-1]
-            ok = reg[0].v == f"slave_sel_dec[{ch}]" and B.equivalent(B.guard_formula(reg[0].guards), B.A(f"locks[{ch}].ready"))
+            ok = reg[0].v == f"slave_sel_dec[{ch}]" and B.equivalent(reg[0].eff(), B.A(f"locks[{ch}].ready"))
         ctx.ob("L3", rel, dcls, "select register updated only when unlocked", ok,
                "" if ok else f"{[(a.v, a.gtext()) for a in reg]}: the route changes while responses are outstanding", reg[0].line if reg else 0)
         fin = [a for a in fx.find(domain="comb") if a.t.startswith("slave_sel[")]
@@ -178,8 +178,8 @@ def run(ctx):
         ok = len(live) == 1 and len(froz) == 1 and len(fin) == 2
         if ok:
             ch = live[0].t[len("slave_sel["):-1]
-            ok = B.equivalent(B.guard_formula(live[0].guards), B.A(f"locks[{ch}].ready")) and \
-                B.equivalent(B.guard_formula(froz[0].guards), B.Not(B.A(f"locks[{ch}].ready")))
+            ok = B.equivalent(live[0].eff(), B.A(f"locks[{ch}].ready")) and \
+                B.equivalent(froz[0].eff(), B.Not(B.A(f"locks[{ch}].ready")))
         ctx.ob("L3", rel, dcls, "final select = live decode when unlocked, register otherwise", ok, "" if ok else f"{[(a.v, a.gtext()) for a in fin]}")
         m2s = [a for a in fx.find(domain="comb") if a.t == "getattr(getattr(slaves[i][1], channel), name)"]
         ok = len(m2s) == 1 and not m2s[0].guards
